@@ -113,7 +113,8 @@ def build(spec: dict) -> dict:
             n = sizes[i % len(sizes)] if sizes else len(body) - pos
             n = max(1, min(n, len(body) - pos))
             bounds.append(len(out))  # start of a chunk-size line
-            out += b"%x%s\r\n" % (n, ext if i % 2 == 0 else b"")
+            # (chunk_pad: sizes written with leading zeros -- legal: chunk-size = 1*HEXDIG)
+            out += (b"%0" + str(int(spec["chunk_pad"])).encode() + b"x%s\r\n" if spec.get("chunk_pad") else b"%x%s\r\n") % (n, ext if i % 2 == 0 else b"")
             offs[pos] = len(out)
             bounds.append(len(out))  # start of chunk data
             out += body[pos : pos + n] + b"\r\n"
